@@ -89,14 +89,15 @@ theorem sim_err : ∀ (n : Nat) (T : DTask) (loc : Env) (d : DSt) (e : Err),
       | call f args =>
         simp only [doc, bind_err] at h
         rw [hlook] at h
-        rcases h with h | ⟨vs, hvs, h | ⟨dm, hdm, h | ⟨scope, hsc, h⟩⟩⟩
+        rcases h with h | ⟨fv, hfv, h | ⟨vs, hvs, h | ⟨dm, hdm, h | ⟨scope, hsc, h⟩⟩⟩⟩
         · exact ⟨1, e, by simp [taskOf, run, h, bind, Except.bind], he⟩
+        · exact ⟨1, e, by simp [taskOf, run, hfv, h, bind, Except.bind], he⟩
         · -- the callee is not a macro: the same error class on both sides
           refine ⟨1, e, ?_, he⟩
-          have : getMacro st (st.look f) = .error e := by
-            cases hv : st.look f with
+          have : getMacro st fv = .error e := by
+            cases fv with
             | «macro» i =>
-              simp only [hv, getDMacro] at h
+              simp only [getDMacro] at h
               simp only [getMacro]
               cases hi : d.macros[i]? with
               | some dm => simp [hi] at h
@@ -104,15 +105,15 @@ theorem sim_err : ∀ (n : Nat) (T : DTask) (loc : Env) (d : DSt) (e : Err),
                 have : st.macros[i]? = none := by
                   rw [List.getElem?_eq_none_iff] at hi ⊢; rw [← hg.mlen]; exact hi
                 simp [hi] at h; simp [this, h]
-            | atom a => simpa [hv, getDMacro, getMacro] using h
-            | list xs => simpa [hv, getDMacro, getMacro] using h
-            | dict kv => simpa [hv, getDMacro, getMacro] using h
-            | undef => simpa [hv, getDMacro, getMacro] using h
-          simp [taskOf, run, hvs, this, bind, Except.bind]
+            | atom a => simpa [getDMacro, getMacro] using h
+            | list xs => simpa [getDMacro, getMacro] using h
+            | dict kv => simpa [getDMacro, getMacro] using h
+            | undef => simpa [getDMacro, getMacro] using h
+          simp [taskOf, run, hfv, hvs, this, bind, Except.bind]
         · obtain ⟨m, hm, ms⟩ := getMacro_sim hg hdm
           obtain ⟨hp, _, _, _⟩ := ms
           rw [hp] at h
-          exact ⟨1, e, by simp [taskOf, run, hvs, hm, h, bind, Except.bind], he⟩
+          exact ⟨1, e, by simp [taskOf, run, hfv, hvs, hm, h, bind, Except.bind], he⟩
         · obtain ⟨m, hm, ms⟩ := getMacro_sim hg hdm
           obtain ⟨hp, hdw, hd1, hd2⟩ := ms
           rw [hp] at hsc
@@ -120,7 +121,7 @@ theorem sim_err : ∀ (n : Nat) (T : DTask) (loc : Env) (d : DSt) (e : Err),
           obtain ⟨k, e', r1, he'⟩ := r1
           simp only [taskOf] at r1
           rw [← hd1, ← hd2] at r1
-          exact ⟨k + 1, e', by simp [taskOf, run, hvs, hm, hsc, r1, bind, Except.bind, mapSt], he'⟩
+          exact ⟨k + 1, e', by simp [taskOf, run, hfv, hvs, hm, hsc, r1, bind, Except.bind, mapSt], he'⟩
     | dirs ds t =>
       have hdw : DirsWF ds t := hwf
       cases ds with
